@@ -1,7 +1,37 @@
-"""C22 -- saving and restoring a working store preserves the manifest (spec: Workflow; replay of TLC histories in one process)."""
+"""C22 -- saving and restoring a working store preserves the manifest (spec: Workflow, Redaction; replay of TLC histories)."""
+import json
 from lib.vcheck import *
 from checks.wfcommon import report
 
 
 def run(ctx):
     report(ctx, "C22", "with_archive")
+    # builders that carry redactions: the valid redaction chains of spec Redaction, each edit saved and restored through an
+    # archive before signing, must behave like the same chain without the archive step
+    vecs = tlc_expect_ok(tlc("MC_Redaction", "MC_Redaction_emit.cfg", name="redaction_emit_c22", workers=4, timeout=1500, coverage=False), "emit").printed("VEC")
+    valid = [v for v in vecs if v["verdict"] == "valid"]
+    if len(valid) < 30:
+        raise ToolError("too few valid redaction chains: %d" % len(valid))
+    runs = []
+    for i, v in enumerate(valid):
+        runs.append(dict(v, id=i, arch=True))
+        runs.append(dict(v, id=i, arch=False))
+    p = vh(["c20-replay"], stdin="\n".join(json.dumps(x) for x in runs), timeout=6000)
+    outs = [json.loads(l) for l in p.stdout.splitlines() if l.strip()]
+    if len(outs) != len(runs):
+        raise ToolError("replay returned %d results for %d vectors" % (len(outs), len(runs)))
+    for k in range(0, len(runs), 2):
+        v, a, b = runs[k], outs[k], outs[k + 1]
+        has_red = any(len(r) > 0 for r in v["requests"])
+        case = {"requests": v["requests"], "fmt": a["fmt"], "with_archive": [{"j": l["j"], "sign": l["sign"][:160], "state": (l.get("read") or {}).get("state")} for l in a["levels"]], "present_with_archive": a["present"], "present_without": b["present"]}
+        la, lb = a["levels"][-1], b["levels"][-1]
+        if lb["sign"] != "ok":
+            continue        # C20's business
+        if la["sign"] != "ok":
+            kind = la["sign"].split(":")[1].split("(")[0] if ":" in la["sign"] else la["sign"]
+            ctx.violation("operation-failed:sign:%s%s" % (kind, ":redactions" if has_red else ""), "an edit with redactions %s saved with to_archive and restored with with_archive fails: %s" % (v["requests"], la["sign"][:160]), case)
+            continue
+        if (la.get("read") or {}).get("state") != (lb.get("read") or {}).get("state") or a["present"] != b["present"]:
+            ctx.violation("restore-differs:redactions", "an edit with redactions gives a different result after an archive round trip", case)
+    ctx.cov["traces_validated_against_impl"] += len(runs)
+    ctx.cov["redaction_chains_through_archive"] = len(valid)
